@@ -50,7 +50,7 @@ def build_cli():
 
 
 def build_lean(targets):
-    rc, out = sh(["lake", "build"] + targets, cwd=LEAN)
+    rc, out = sh(["lake", "build"] + targets, cwd=LEAN, timeout=2400)
     return rc, out
 
 
